@@ -203,8 +203,10 @@ def write_ruleset(root, spec):
     lines += ['[TRAINING_DATASET_DETAILS]', 'comments = ', 'filename = verif.txt', 'encoding = ' + enc,
               'uuid = ' + spec.get('uuid', '00000000-0000-4000-8000-000000000001'),
               'number_of_passwords_in_set = 1', 'number_of_encoding_errors = 0', '']
-    lines += ['[START]', 'name = Base Structure', 'function = Transparent', 'directory = Grammar',
+    # section by section what the trainer writes (keys, values and their order as in a trained ruleset; the comments are shortened)
+    lines += ['[START]', 'name = Base Structure', 'function = Transparent', 'directory = Grammar', 'comments = Base structures',
               'file_type = Flat', 'inject_type = Wordlist', 'is_terminal = False',
+              'replacements = ' + json.dumps([{'Config_id': 'BASE_' + k, 'Transition_id': k} for k in 'ADOKXY']),
               'filenames = ["grammar.txt"]', '']
     for key, section, folder in _LEN_SECTIONS:
         files = spec.get(key, {})
@@ -213,11 +215,16 @@ def write_ruleset(root, spec):
             fn = '%s.txt' % length
             names.append(fn)
             write_list(os.path.join(root, folder, fn), rows, enc)
-        lines += ['[%s]' % section, 'name = %s' % key, 'directory = %s' % folder,
-                  'filenames = ' + json.dumps(names), '']
+        lines += ['[%s]' % section, 'name = %s' % key, 'function = %s' % {'A': 'Shadow', 'C': 'Capitalization'}.get(key, 'Copy'), 'directory = %s' % folder,
+                  'comments = %s' % folder, 'file_type = Length', 'inject_type = %s' % ('Wordlist' if key == 'A' else 'Copy'),
+                  'is_terminal = %s' % (key != 'A')]
+        if key == 'A':
+            lines += ['replacements = [{"Config_id": "CAPITALIZATION", "Transition_id": "Capitalization"}]']
+        lines += ['filenames = ' + json.dumps(names), '']
     for key, section, folder in _FLAT_SECTIONS:
         write_list(os.path.join(root, folder, '1.txt'), spec.get(key, []), enc)
-        lines += ['[%s]' % section, 'name = %s' % key, 'directory = %s' % folder, 'filenames = ["1.txt"]', '']
+        lines += ['[%s]' % section, 'name = %s' % key, 'function = Copy', 'directory = %s' % folder, 'comments = %s' % folder, 'file_type = Flat',
+                  'inject_type = Copy', 'is_terminal = True', 'filenames = ["1.txt"]', '']
     with open(os.path.join(root, 'config.ini'), 'w') as f:
         f.write('\n'.join(lines) + '\n')
     write_list(os.path.join(root, 'Grammar', 'grammar.txt'), spec.get('grammar', []), 'ascii')
